@@ -27,17 +27,17 @@ type CycleOracle func(m *oracle.Model, res *sched.CycleResult, after *spec.Objec
 
 // SchedCheck is a scheduler-side check: generated clusters, real cycles, offline oracle per cycle.
 type SchedCheck struct {
-	Id          string
-	Profile     string
-	Quick       int
-	Thorough    int
-	Oracle      CycleOracle
-	RuleText    string
-	Assume      []string
-	SkipFaulty  bool                                    // do not evaluate the oracle on cycles of cases with injected faults
-	Mutate      func(c *spec.Case, seed int64, idx int) // optional post-processing of the generated case
+	Id         string
+	Profile    string
+	Quick      int
+	Thorough   int
+	Oracle     CycleOracle
+	RuleText   string
+	Assume     []string
+	SkipFaulty bool                                    // do not evaluate the oracle on cycles of cases with injected faults
+	Mutate     func(c *spec.Case, seed int64, idx int) // optional post-processing of the generated case
 	// Gen, if set, may supply the case of an index from another generator (nil = the profile's generator)
-	Gen func(seed int64, idx int, tier string) *spec.Case
+	Gen         func(seed int64, idx int, tier string) *spec.Case
 	Hooks       func(c *spec.Case, sink *[]run.Violation, st *oracle.Stats) sched.Hooks
 	AfterCase   func(c *spec.Case, hist []CycleRecord, st *oracle.Stats) []run.Violation
 	LevelName   string
@@ -143,8 +143,9 @@ func (s *SchedCheck) RunGenerated(c *spec.Case, env *run.Env) run.CaseResult {
 	if s.NewMonitor != nil {
 		monitor = s.NewMonitor()
 		mon.Cur = monitor
+		mon.DRAEnabled = c.Objects.HasDRA()
 		hooks = monitor.Hooks()
-		defer func() { mon.Cur = nil }()
+		defer func() { mon.Cur, mon.DRAEnabled = nil, false }()
 	}
 	rng := gen.NewRand(c.Seed, c.Index, 2)
 	r, err := sched.NewRunner(st, c, rng, hooks)
@@ -162,9 +163,15 @@ func (s *SchedCheck) RunGenerated(c *spec.Case, env *run.Env) run.CaseResult {
 	faulty := c.Faults.PBindRequestCreateFails > 0 || c.Faults.PPodDeleteFails > 0 || c.Faults.PEvictCallFails > 0
 	var hist []CycleRecord
 	panicked := false
+	if c.Objects.HasDRA() { // DRA evidence counters
+		stats.Inc("dra_cases")
+		stats.Add("dra_claims_generated", len(c.Objects.ResourceClaims))
+		stats.Add("dra_devices_generated", countDevices(&c.Objects))
+	}
 	for cyc := 1; cyc <= c.Cycles; cyc++ {
 		before := st.ReadAll()
 		cr := r.Cycle()
+		draEventCounters(before, cr.Events, stats)
 		if cr.NotSynced {
 			notSynced++
 		}
@@ -198,6 +205,9 @@ func (s *SchedCheck) RunGenerated(c *spec.Case, env *run.Env) run.CaseResult {
 		if s.StopCase != nil && s.StopCase() {
 			break
 		}
+	}
+	if w.ClaimWrites > 0 {
+		stats.Add("dra_world_claim_status_writes", w.ClaimWrites)
 	}
 	if s.AfterCase != nil {
 		viols = append(viols, s.AfterCase(c, hist, stats)...)
@@ -243,6 +253,47 @@ func (s *SchedCheck) RunGenerated(c *spec.Case, env *run.Env) run.CaseResult {
 	}
 	res.Sample = sampleOf(c, hist)
 	return res
+}
+
+func countDevices(o *spec.Objects) int {
+	n := 0
+	for _, s := range o.ResourceSlices {
+		n += len(s.Spec.Devices)
+	}
+	return n
+}
+
+// draEventCounters counts what the cycle decided about pods that use resource claims.
+func draEventCounters(before *spec.Objects, events []sched.Event, st *oracle.Stats) {
+	if !before.HasDRA() {
+		return
+	}
+	claimPods := map[string]bool{}
+	for _, p := range before.Pods {
+		if len(p.Spec.ResourceClaims) > 0 {
+			claimPods[p.Namespace+"/"+p.Name] = true
+		}
+	}
+	for i := range events {
+		e := &events[i]
+		if !claimPods[e.Key()] || e.Err != "" {
+			continue
+		}
+		switch e.Kind {
+		case "bind":
+			st.Inc("dra_binds_of_claim_pods")
+			for _, ca := range e.Claims {
+				if len(ca.Devices) > 0 {
+					st.Inc("dra_binds_with_claim_allocations")
+					break
+				}
+			}
+		case "evict":
+			st.Inc("dra_evictions_of_claim_pods")
+		case "pipeline":
+			st.Inc("dra_nominations_of_claim_pods")
+		}
+	}
 }
 
 // panicFrame extracts the innermost KAI-scheduler frame below the panic from a stack trace.
